@@ -377,6 +377,7 @@ def run(chk: Check):
                 specs.append(s)
     chk.notes["strata"] = {k: len(v) for k, v in strata.items()}
     chk.notes["quick_points_distinct"] = len(specs)
+    specs.sort(key=lambda t: (t[0],) + tuple(t[1:]))      # neighbours become adjacent: longer runs, smaller batches
     groups = [specs[i:i + 512] for i in range(0, len(specs), 512)]
     t0 = time.time()
     with ctx.Pool(min(16, os.cpu_count() or 4)) as pool:
